@@ -31,6 +31,9 @@ structure Lexer where
   chunk : List Nat := []
   colValid : Bool := false
   colValue : Nat := 0
+  /-- Model variant, not a field of the C struct: `true` = lexer.c with fixes/C13-empty-range-boundary.diff
+  (empty ranges are stepped over without moving the position, `mark_end` walks back over them). -/
+  skipEmpty : Bool := false
   deriving Inhabited
 
 abbrev Read := Nat → List Nat
@@ -81,6 +84,14 @@ def findRange (rs : List TSRange) (i : Nat) (p : Nat) : Option (Nat × TSRange) 
   | r :: rest =>
     if r.end_byte > p ∧ r.end_byte > r.start_byte then some (i, r) else findRange rest (i + 1) p
 
+/-- The nearest range before index `i` that includes text (for `mark_end` with the fix): walk back over empty ones. -/
+def prevNonEmpty (ranges : Array TSRange) : Nat → Option TSRange
+  | 0 => none
+  | i + 1 =>
+    let r := ranges.getD i default
+    if r.end_byte > r.start_byte then some r
+    else if i == 0 then none else prevNonEmpty ranges i
+
 def Lexer.goto (l : Lexer) (position : Length) : Lexer :=
   let l := if position.bytes != l.pos.bytes then { l with colValid := false, colValue := 0 } else l
   let l := { l with pos := position }
@@ -92,7 +103,7 @@ def Lexer.goto (l : Lexer) (position : Length) : Lexer :=
              then l.clearChunk else l
     { l with laSize := 0, lookahead := 0 }
   | none =>
-    let last := l.range (l.count - 1)
+    let last := if l.skipEmpty then (prevNonEmpty l.ranges l.count).getD (l.range 0) else l.range (l.count - 1)
     let l := { l with idx := l.count, pos := ⟨last.end_byte, last.end_point⟩ }
     let l := l.clearChunk
     { l with laSize := 1, lookahead := 0 }
@@ -109,6 +120,19 @@ def skipL : List TSRange → Length → Nat × Length × Bool
       | [] => (1, pos, false)
       | nxt :: _ =>
         let r := skipL rest ⟨nxt.start_byte, nxt.start_point⟩
+        (r.1 + 1, r.2.1, r.2.2)
+    else (0, pos, true)
+
+/-- `skipL` with fixes/C13-empty-range-boundary.diff: stepping onto a range sets the position only when the
+range includes text. -/
+def skipLF : List TSRange → Length → Nat × Length × Bool
+  | [], pos => (0, pos, false)
+  | cur :: rest, pos =>
+    if pos.bytes ≥ cur.end_byte ∨ cur.end_byte = cur.start_byte then
+      match rest with
+      | [] => (1, pos, false)
+      | nxt :: _ =>
+        let r := skipLF rest (if nxt.end_byte > nxt.start_byte then ⟨nxt.start_byte, nxt.start_point⟩ else pos)
         (r.1 + 1, r.2.1, r.2.2)
     else (0, pos, true)
 
@@ -133,7 +157,7 @@ def Lexer.doAdvance (read : Read) (l : Lexer) (skip : Bool) : Lexer :=
           { l with pos := { l.pos with extent := ⟨l.pos.extent.row, l.pos.extent.column + l.laSize⟩ } }
       { l with pos := { l.pos with bytes := l.pos.bytes + l.laSize } }
     else l
-  let (k, pos, inRange) := skipL (l.ranges.toList.drop l.idx) l.pos
+  let (k, pos, inRange) := if l.skipEmpty then skipLF (l.ranges.toList.drop l.idx) l.pos else skipL (l.ranges.toList.drop l.idx) l.pos
   let l := { l with idx := l.idx + k, pos := pos }
   let l := if skip then { l with tokStart := l.pos } else l
   if inRange then l.refill read
@@ -183,8 +207,13 @@ def Lexer.markEnd (l : Lexer) : Lexer :=
   if !l.eof then
     let cur := l.range l.idx
     if l.idx > 0 && l.pos.bytes == cur.start_byte then
-      let prev := l.range (l.idx - 1)
-      { l with tokEnd := ⟨prev.end_byte, prev.end_point⟩ }
+      if l.skipEmpty then
+        match prevNonEmpty l.ranges l.idx with
+        | some prev => { l with tokEnd := ⟨prev.end_byte, prev.end_point⟩ }
+        | none => { l with tokEnd := l.pos }
+      else
+        let prev := l.range (l.idx - 1)
+        { l with tokEnd := ⟨prev.end_byte, prev.end_point⟩ }
     else { l with tokEnd := l.pos }
   else { l with tokEnd := l.pos }
 
